@@ -47,8 +47,9 @@ Definition sign_extend (len : N) (bs : bytes) : option bytes :=
   let sb := if is_neg bs then 255 else 0 in
   if lenN raw <=? len then Some (repeat_n sb (N.to_nat (len - lenN raw)) ++ raw) else None.
 
-(* Decimal::to_vec = to_sign_extended_bytes_with_len(self.len) *)
-Definition dec_to_vec (bs : bytes) : option bytes := sign_extend (lenN bs) bs.
+(* Decimal::to_vec = to_sign_extended_bytes_with_len(self.len.max(1)): a decimal read from zero
+   bytes is the number zero and is written as one zero byte *)
+Definition dec_to_vec (bs : bytes) : option bytes := sign_extend (N.max 1 (lenN bs)) bs.
 
 (* ---- UUID text ---- *)
 Definition hexdig (n : N) : N := if n <? 10 then 48 + n else 87 + n.   (* lower case *)
@@ -85,17 +86,18 @@ Fixpoint unhex_pairs (bs : bytes) : option bytes :=
     end
   end.
 
-(* groups 8-4-4-4-12 separated by '-' *)
+(* groups 8-4-4-4-12 separated by '-' (45) *)
 Definition parse_hyphenated (s : bytes) : option bytes :=
   match take 8 s with
-  | Some (g1, 45 :: r1) =>
+  | Some (g1, x1 :: r1) =>
     match take 4 r1 with
-    | Some (g2, 45 :: r2) =>
+    | Some (g2, x2 :: r2) =>
       match take 4 r2 with
-      | Some (g3, 45 :: r3) =>
+      | Some (g3, x3 :: r3) =>
         match take 4 r3 with
-        | Some (g4, 45 :: g5) =>
-          if lenN g5 =? 12 then unhex_pairs (g1 ++ g2 ++ g3 ++ g4 ++ g5) else None
+        | Some (g4, x4 :: g5) =>
+          if (x1 =? 45) && (x2 =? 45) && (x3 =? 45) && (x4 =? 45) && (lenN g5 =? 12)
+          then unhex_pairs (g1 ++ g2 ++ g3 ++ g4 ++ g5) else None
         | _ => None end
       | _ => None end
     | _ => None end
@@ -111,10 +113,10 @@ Definition uuid_parse (s : bytes) : option bytes :=
   else if n =? 36 then parse_hyphenated s
   else if n =? 38 then
     match s with
-    | 123 :: r => match take 36 r with
-                  | Some (m, [125]) => parse_hyphenated m
-                  | _ => None end
-    | _ => None
+    | x :: r => match take 36 r with
+                | Some (m, [y]) => if (x =? 123) && (y =? 125) then parse_hyphenated m else None
+                | _ => None end
+    | [] => None
     end
   else if n =? 45 then
     match take 9 s with
@@ -122,3 +124,17 @@ Definition uuid_parse (s : bytes) : option bytes :=
     | None => None
     end
   else None.
+
+(* f64::from(f32) on bit patterns: exact widening; NaNs keep sign and payload and become quiet
+   (what the hardware conversion does).  Used by the encoder for a Float under a double schema. *)
+Definition f32_to_f64 (x : N) : N :=
+  let sign := (x / 2 ^ 31) * 2 ^ 63 in
+  let e := (x / 2 ^ 23) mod 256 in
+  let m := x mod 2 ^ 23 in
+  if e =? 255 then
+    if m =? 0 then sign + 2047 * 2 ^ 52
+    else sign + 2047 * 2 ^ 52 + N.lor (m * 2 ^ 29) (2 ^ 51)
+  else if e =? 0 then
+    if m =? 0 then sign
+    else let k := N.log2 m in sign + (k + 874) * 2 ^ 52 + (m - 2 ^ k) * 2 ^ (52 - k)
+  else sign + (e + 896) * 2 ^ 52 + m * 2 ^ 29.
